@@ -37,6 +37,30 @@ type SolveCfg struct {
 	CacheDir  string
 	TmpDir    string
 	SolverSeq []int // indexes into solvers
+	NoRelax   bool
+}
+
+// relaxQuery removes the quantified assumptions of a query (every "(assert ...)" line mentioning a quantifier except the
+// final goal). Removing assumptions can only make a query easier to satisfy, so "unsat" for the relaxation is "unsat"
+// for the query.
+func relaxQuery(q string) (string, bool) {
+	lines := strings.Split(q, "\n")
+	last := -1
+	for i, l := range lines {
+		if strings.HasPrefix(l, "(assert ") {
+			last = i
+		}
+	}
+	changed := false
+	var out []string
+	for i, l := range lines {
+		if i != last && strings.HasPrefix(l, "(assert ") && (strings.Contains(l, "(forall ") || strings.Contains(l, "(exists ")) {
+			changed = true
+			continue
+		}
+		out = append(out, l)
+	}
+	return strings.Join(out, "\n"), changed
 }
 
 var cacheMu sync.Mutex
@@ -66,7 +90,7 @@ func runSolver(sd solverDef, file string, timeoutS int) (string, string, float64
 			break
 		}
 	}
-	if first == "" {
+	if first == "" || strings.Contains(o, "(error ") {
 		first = "error"
 	}
 	return first, o, el
@@ -107,6 +131,27 @@ func solveOne(o *Obligation, cfg SolveCfg, w int) {
 			if len(parts) == 2 && (parts[0] == "unsat" || parts[0] == "sat") {
 				o.Result, o.Solver, o.Time = parts[0], parts[1]+" (cached)", 0
 				return
+			}
+		}
+	}
+	// stage A: drop every quantified assumption (sound: fewer assumptions); most safety obligations are decided here
+	if !o.Canary && !cfg.NoRelax {
+		if rq, changed := relaxQuery(o.Query); changed {
+			rf := filepath.Join(cfg.TmpDir, "r_"+h[:16]+".smt2")
+			if err := os.WriteFile(rf, []byte(rq), 0o644); err == nil {
+				t := cfg.TimeoutS
+				if t > 5 {
+					t = 5
+				}
+				res, _, el := runSolver(solvers[0], rf, t)
+				os.Remove(rf)
+				if res == "unsat" {
+					o.Result, o.Solver, o.Time = "unsat", solvers[0].name+" (quantifier-free relaxation)", el
+					if cfg.CacheDir != "" {
+						os.WriteFile(filepath.Join(cfg.CacheDir, h), []byte("unsat "+o.Solver+"\n"), 0o644)
+					}
+					return
+				}
 			}
 		}
 	}
